@@ -81,6 +81,18 @@ Theorem C04_logs_are_events : forall s a e s',
 Proof. exact logs_step. Qed.
 Print Assumptions C04_logs_are_events.
 
+(* "exactly the N frames the camera delivered": a frame call that returns NO frame (Device_Ok with zero bytes: the camera timed
+   out) is not a frame -- it is made by the source thread on the running camera, consumes no frame id and no hardware id, and
+   leaves the queue and every log untouched; the source asks again.  (With it, the theorems above count the frames the camera
+   delivered, not the calls made to it.) *)
+Theorem C04_empty_poll_is_no_frame : forall s a i s',
+  step_stream s a (DGetEmpty i) = Some s' ->
+  a = ASrc /\ cam s = Some i /\ cam_st s = HRunning /\ s_pc s' = SLoop /\
+  iframe s' = iframe s /\ cam_next s' = cam_next s /\ log s' = log s /\ delivered s' = delivered s /\ stored s' = stored s /\
+  dropped s' = dropped s.
+Proof. exact empty_poll_neutral. Qed.
+Print Assumptions C04_empty_poll_is_no_frame.
+
 (* two streams never mix: an event of stream i leaves stream 1-i's state untouched; the one exception, a failing device
    start (acquire_start then aborts every stream), changes control flags only, never the other stream's queue, storage
    log, camera log, monitor log or cursors *)
@@ -116,4 +128,18 @@ Proof. vm_compute. reflexivity. Qed.
 Example C04_example_traces_accepted :
   match accepts init_sys tr_two_acqs, accepts init_sys tr_abort, accepts init_sys tr_stofail with
   | Some _, Some _, Some _ => true | _, _, _ => false end = true.
+Proof. vm_compute. reflexivity. Qed.
+
+(* C04_empty_poll_is_no_frame is not vacuous: a trace logged from the REAL runtime with a camera whose every second frame call
+   returns no frame (tr_empty: 3 frames requested; 2 empty polls at events 36 and 56) is accepted, the empty poll is enabled where the
+   log has it, and storage ends with exactly the 3 delivered frames, ids 0,1,2 *)
+Example C04_example_empty_polls :
+  match after tr_empty before_first_empty_poll, accepts init_sys tr_empty with
+  | Some y, Some yf =>
+      (match step y (EvS false ASrc (DGetEmpty 1)) with Some y' => N.eqb (iframe (st0 y')) (iframe (st0 y)) | None => false end)
+      && Nat.eqb (length (stored (st0 yf))) 3 && Nat.eqb (length (delivered (st0 yf))) 3
+      && forallb (fun p => N.eqb (f_id (fst p)) (N.of_nat (snd p))) (combine (stored (st0 yf)) (seq 0 3))
+      && Nat.eqb (length (filter (fun e => match e with EvS _ _ (DGetEmpty _) => true | _ => false end) tr_empty)) 2
+  | _, _ => false
+  end = true.
 Proof. vm_compute. reflexivity. Qed.
